@@ -114,6 +114,11 @@ func cleanTwin(cfg core.Cfg, ops []core.Op, results []core.OpResult, queries []c
 		if i < len(results) && results[i].Err && op.IsWrite() {
 			continue
 		}
+		if i == len(ops)-1 && op.Kind == "merge" {
+			// Merge is the operation under enumeration (C16): what a complete Merge itself changes
+			// is judged too (the image after its last event), not excused
+			break
+		}
 		op.SameMs = false
 		in.Apply(op)
 		if in.Poisoned != "" || in.DB == nil {
